@@ -249,6 +249,97 @@ def nested_job(arg):
     return rep
 
 
+UNARY_SRC = """import dds
+
+
+def shift(a, b=0):
+    return ("shift", a, b)
+
+
+def w0():
+    return dds.keep("/c13u/p", shift, 1)
+
+
+def w1():
+    return dds.keep("/c13u/p", shift, +1)
+
+
+def w2():
+    return dds.keep("/c13u/p", shift, -1)
+
+
+def w3():
+    return dds.keep("/c13u/p", shift, ~0)
+
+
+def w4():
+    return dds.keep("/c13u/p", shift, ~1)
+
+
+def w5():
+    return dds.keep("/c13u/p", shift, not 1)
+
+
+def w6():
+    return dds.keep("/c13u/p", shift, 2, b=-0)
+
+
+def w7():
+    return dds.keep("/c13u/p", shift, 2, b=~0)
+
+
+def w8():
+    return dds.keep("/c13u/p", shift, -1.5)
+
+
+def w9():
+    return dds.keep("/c13u/p", shift, +1.5)
+"""
+UNARY_EXPECT = [("shift", 1, 0), ("shift", 1, 0), ("shift", -1, 0), ("shift", -1, 0), ("shift", -2, 0), ("shift", False, 0), ("shift", 2, 0), ("shift", 2, -1), ("shift", -1.5, 0), ("shift", 1.5, 0)]
+
+
+def unary_job(arg):
+    """Kept calls whose literal arguments carry a unary operator (+1, -1, ~0, not 1): every call returns what plain
+    execution returns, and calls that bind different values never share a signature."""
+    scratch, idx = arg
+    import dds
+    from dds import _api
+    from vp.capstore import CapturingStore
+
+    rep = core.Report("C13")
+    d = os.path.join(scratch, "c13u_%d" % idx)
+    os.makedirs(os.path.join(d, "c13upkg%d" % idx))
+    open(os.path.join(d, "c13upkg%d" % idx, "__init__.py"), "w").write("")
+    open(os.path.join(d, "c13upkg%d" % idx, "m.py"), "w").write(UNARY_SRC)
+    sys.path.insert(0, d)
+    mod = importlib.import_module("c13upkg%d.m" % idx)
+    dds.accept_module("c13upkg%d" % idx)
+    dds.set_store("memory")
+    cs = CapturingStore(_api._store_var)
+    dds.set_store(cs)
+    owner = {}
+    for rnd in (0, 1):
+        for i, want in enumerate(UNARY_EXPECT):
+            cs.clear()
+            rep.evaluations += 1
+            rep.count("calls_source")
+            try:
+                got = dds.eval(getattr(mod, "w%d" % i))
+            except BaseException as e:
+                rep.violate("literal with a unary operator (w%d) raised %s: %s" % (i, type(e).__name__, str(e)[:120]), {"unary": i}, mechanism="keep-raised")
+                continue
+            if V.canon_doc(got) != V.canon_doc(want) or repr(got) != repr(want) and not isinstance(want[1], bool):
+                rep.violate("kept call w%d (literal with a unary operator) returned %r, plain execution gives %r" % (i, got, want), {"unary": i}, mechanism="unary-literal-wrong-value")
+            sg = (cs.last_sync() or {}).get("/c13u/p")
+            ck = repr(V.canon_doc(want))
+            if sg is not None:
+                if sg in owner and owner[sg] != ck:
+                    rep.violate("kept calls binding %s and %s (literals with unary operators) share one signature" % (owner[sg], ck), {"unary": i}, mechanism="unary-literal-collision")
+                owner.setdefault(sg, ck)
+    rep.nontriv(("c13unary", idx))
+    return rep
+
+
 CLASS_SRC = """import dataclasses
 import dds
 
@@ -349,7 +440,7 @@ def run(tier, seed):
         "functions with 1..%d positional-or-keyword parameters, defaults drawn from %r (all shapes for n<=2, sampled for n>=3); "
         "bindings over %r (all for n=1, sampled otherwise); every spelling = positional prefix + each permutation of keywords, "
         "each defaulted parameter explicit or omitted; each spelling is run as a direct dds.keep and as literals in a wrapper under dds.eval; then the module is rewritten with other defaults for the same "
-        "function, reloaded in the same process, and everything is asked again; plus a kept function that keeps another call on one of its own parameters (directly and through a plain helper), asked for every value and spelling; and classes as the kept callable (constructor generated by dataclass / inherited / explicit). "
+        "function, reloaded in the same process, and everything is asked again; plus a kept function that keeps another call on one of its own parameters (directly and through a plain helper), asked for every value and spelling; and classes as the kept callable (constructor generated by dataclass / inherited / explicit); literal arguments written with unary operators. "
         "distinct_nontrivial = number of distinct (function shape, binding class) groups for which at least two spellings/modes were compared."
         % (nmax, DEFAULTS, VALUES)
     )
@@ -377,7 +468,7 @@ def run(tier, seed):
                 bs = list(dict.fromkeys(dflt + allb[:k]))
             jobs.append((shape, idx, bs, scratch))
         results = core.fork_map(job, jobs, timeout=600)
-        nres = core.fork_map(lambda j: (class_job if j[0] == "c" else nested_job)(j[1]), [("n", (scratch, 0)), ("c", (scratch, 1))], timeout=600)
+        nres = core.fork_map(lambda j: {"c": class_job, "n": nested_job, "u": unary_job}[j[0]](j[1]), [("n", (scratch, 0)), ("c", (scratch, 1)), ("u", (scratch, 2))], timeout=600)
     for r in nres:
         if isinstance(r, core.JobFailed):
             rep.inconclusive.append("nested job: %r" % (r,))
